@@ -470,6 +470,13 @@ func runC04(c *core.Ctx) {
 
 	c04Respec(c, pkg)
 	c04ProbeRules(c, pkg)
+	// neighbours' rules that are necessary conditions of this property too (round 5: the saboteur of C04 broke them)
+	if root := c.P.Pkg(""); root != nil {
+		c.Rule("C04.exprs", "A6 (= C06.exprs): the result for a point depends on earlier points of the same group only: a field of a grouped node that holds stateful.Expression values is used, outside assignments that initialise it, only as the receiver of CopyReset() (directly or through a range variable), in len() or in a nil test — never evaluated or passed on")
+		c.As("C06.exprs", "C04.exprs", func() { c06Exprs(c, root) })
+		c.Rule("C04.pools", "A7 (= C01.pools): a lambda sees every field and tag it names: in newAlertNode, for every level index the scope pool stored next to a compiled expression is built from the reference variables of that same expression — a pool built from another expression leaves variables undefined although the point carries them")
+		c.As("C01.pools", "C04.pools", func() { c01Pools(c, root.TypesInfo) })
+	}
 	c04Arity(c, pkg)
 	c04SigCheck(c)
 	c04BoolSpec(c, pkg)
